@@ -149,6 +149,8 @@ pub enum VerifyMode {
     Report,
     /// `.no_verify_in_drop()` right after construction (before any clone is made), `verify()` at the end
     ExplicitVerify,
+    /// `.no_verify_in_drop()` right after construction, `Termination::report()` at the end
+    ExplicitReport,
 }
 
 #[derive(Clone, Debug, PartialEq, Eq, Hash, Serialize, Deserialize)]
